@@ -2,7 +2,7 @@ SPECIFICATION Spec
 CONSTANTS
   Cfgs <- MCT5_Cfgs
   GradsOf <- MCT5_GradsOf
-  T = 4
+  T = 5
 INVARIANT TypeOK
 INVARIANT Bracket
 INVARIANT NonNeg
